@@ -303,6 +303,19 @@ func cellEscapes(a *ssa.Alloc) bool {
 				return true
 			}
 		case *ssa.DebugRef:
+		case *ssa.FieldAddr, *ssa.IndexAddr:
+			// read-only projections (&cell.f used only by loads) do not let the cell escape
+			for _, rr := range *r.(ssa.Value).Referrers() {
+				switch y := rr.(type) {
+				case *ssa.UnOp:
+					if y.Op != token.MUL {
+						return true
+					}
+				case *ssa.DebugRef:
+				default:
+					return true
+				}
+			}
 		default:
 			return true
 		}
